@@ -9,13 +9,19 @@ from props import treelib as T
 ID = "C06"
 LEAN_MODULES = ["Ccp.Props.C06"]
 RULE = ("histories of 1..6 editing operations (list insert/append/pop, list-level insert_before/after by regex, object-level "
-        "insert_before/after, delete, append_to_family with explicit/auto/no indent, replace_text, re_sub, commit) over 11 seed "
+        "insert_before/after, delete, append_to_family with explicit/auto/no indent, replace_text, re_sub, commit) over 10 seed "
         "configs and random configs of 2..10 lines with duplicate texts, prefix texts (Eth1/Eth10) and regex metacharacters; "
-        "auto_commit on and off (+ explicit commits); syntax ios (indent width 1) and nxos (width 2); ignore_blank_lines off "
-        "(its interaction with commits is C07's). quick: every single operation of a 60-op alphabet on every seed config, plus "
-        "random histories. Object-level operations take their object from the committed tree: while an uncommitted change is "
-        "pending (auto_commit off) they are skipped on both sides, because line numbers of held objects are documented to be "
-        "stale until commit. non-trivial = a history with at least one successful mutation; distinct by request.")
+        "auto_commit on and off (+ explicit commits); syntax ios (indent width 1) and nxos (width 2); ignore_blank_lines off and on "
+        "(30 % of the random histories, a sample of the single operations, 40 % of the directed stream; configs with blank lines, "
+        "blank payloads included). quick: every single operation of a 60-op alphabet on every seed config, random histories, and a "
+        "directed stream (auto_commit on, 1..3 ops) aimed at the parent-frame theorems: child-level append_to_family to childless "
+        "and to parent targets (as given / auto_indent / explicit indent), object-level inserts at the indent of the line they are "
+        "placed next to, list-level inserts by a regex that matches the lines of one indent, list insert(k) of a shallow line, "
+        "replace_text that keeps indentation and kind, delete. Banner/macro configs are not generated here (their families are "
+        "delimited, not indentation based; C07 compares their trees). Object-level operations take their object from the committed "
+        "tree: while an uncommitted change is pending (auto_commit off) delete/append_to_family are skipped on both sides, because "
+        "line numbers of held objects are documented to be stale until commit. non-trivial = a history with at least one successful "
+        "mutation; distinct by request. The buckets `frame:*` count the situations of the parent-frame theorems that occurred.")
 LEVEL_TEXT = ("Theorems (Lean 4, Ccp.Props.C06, for all states and payloads of the edit state machine; text effect of one step when the "
               "following commit does not filter, i.e. auto_commit off, or on without ignore_blank_lines): insert(k)/append/pop(k) are exactly "
               "Python's list operations with the index normalisation stated (pop out of range = IndexError, state unchanged); list-level "
@@ -29,22 +35,45 @@ LEVEL_TEXT = ("Theorems (Lean 4, Ccp.Props.C06, for all states and payloads of t
               "by 1 + |all_children|); replace_text / re_sub change position p only (List.set), an unchanged re_sub is a no-op; a successful "
               "append_to_family inserts exactly one line at the computed index, for a child-level append to a target with children that index "
               "is family_endpoint + 1 (directly after the last descendant); every refused operation leaves the whole state unchanged; options "
-              "never change and with auto_commit off only commit replaces the tree. Parent links (configs without banner/macro starts, "
-              "auto_commit on, blank lines kept, committed state): a child-level append_to_family to a target with children puts the line at "
-              "family_endpoint+1, the new line's parent is the target and every existing line keeps its parent (index-shifted), provided the "
-              "payload is not a comment and every config-line child of the target is indented at least as deep as the payload (automatic for "
-              "indent width 1); delete leaves every surviving line's parent at the new position of its old parent; both with the one "
-              "exclusion of a comment directly below the insertion point / below a deleted line (its attachment follows C02's "
-              "comment-under-a-deeper-line rule; counterexamples are given). With auto_commit on and ignore_blank_lines the texts are "
-              "one bootstrap of the auto_commit-off result: a sublist of it keeping every non-blank line. The model is tied to the code by "
-              "differential runs of whole histories (texts after every step, tree after every commit).")
+              "never change and with auto_commit off only commit replaces the tree. "
+              "Parent links (PlainCommitted: committed state, C07's invariant, auto_commit on, no banner/macro start in the config; with OR "
+              "without ignore_blank_lines — such a state holds no blank line and its tree is the option-off parse of its texts; the payload "
+              "starts no banner/macro and is not blank under ignore_blank_lines, a blank one being dropped again by the commit, "
+              "blank_payload_ignored): "
+              "(1) the EXACT frame condition of a one-line insertion at position c (InsertFrame, proved from C02's specParent): lines above c "
+              "keep their parents; an old line j >= c gets the new line as parent iff it is captured — the new line is a config line shallower "
+              "than j, j is not a comment left unattached under a deeper line, and no config line in [c, j) is shallower than j "
+              "(captured_iff) — and otherwise keeps its parent index-shifted; instantiated for ConfigList.insert(k), obj.insert_before, "
+              "obj.insert_after and every successful append_to_family whatever its index branch (F10b and childless same-indent included: "
+              "appendToFamily_parents says exactly which lines change parent). "
+              "(2) child-level append_to_family: to a target with children, for every indent width and every payload (comments included) the "
+              "line goes to family_endpoint+1 and no old line changes parent; a non-comment payload becomes a child of the target — the former "
+              "hypothesis that no config-line child is shallower than the payload is shown to follow from the success of the call for every "
+              "width (appendToFamily_children_anywidth; with width 2 the excluded shapes are refused by the code); to a CHILDLESS target that is "
+              "a config line the line goes to i+1, becomes the target's only child (comment payloads too) and no old line changes parent. "
+              "(3) delete leaves every surviving line's parent at the new position of its old parent, with or without ignore_blank_lines. "
+              "(4) obj.insert_before above a config line that is not indented deeper than the payload (e.g. same indent) changes no parent at "
+              "all and the new line gets the parent of that line; obj.insert_after of a config line at the indent of the (config) line above "
+              "takes over exactly that line's children and becomes its sibling; list-level insert_before/after: removing the copies gives back "
+              "the old list and an old line whose new parent is an old line has it at the image of its old parent (MultiFrame), and when the "
+              "regex matches only config lines not indented deeper than the payload no old line is adopted by a copy "
+              "(listInsertBefore_same_indent). (5) replace_text / re_sub: lines above the position keep their parents whatever the new text is; "
+              "when the new text has the indentation and kind of the old one no parent changes. Exclusions, each with a decided "
+              "counterexample: a comment directly below the insertion point / below a deleted line (C02's comment-under-a-deeper-line rule). "
+              "With auto_commit on and ignore_blank_lines the texts are one bootstrap of the auto_commit-off result: a sublist of it keeping "
+              "every non-blank line. The model is tied to the code by differential runs of whole histories (texts after every step, tree after "
+              "every commit), and the parent-frame theorems are additionally replayed by the Python oracle on the implementation's own trees "
+              "(an independent re-implementation of captured_iff).")
 LEVEL_NOTE = ("Trusted: Lean kernel, standard axioms, harness. Regexes are oracle data (rows / substituted texts computed with re by the "
               "harness); str.replace is modelled for a non-empty 'before'. Partial: the same-indent append_to_family placement is proved as the "
-              "code does it (self + |children|, known finding F10b), not as the property wants it; for a childless target the index is "
-              "characterised through the code's own helpers (last sibling / last_family_linenum / last_parent_linenums[0]). The parent-preservation "
-              "theorems are proved from a specification-level lemma (specParent under insertion of one line / removal of a set of lines) and "
-              "do not cover configs with banner or macro starts, ignore_blank_lines, nxos payloads when some config-line child of the target "
-              "is indented less than the payload, childless targets, or the same-indent placement (F10b, where parents do change).")
+              "code does it (self + |children|, known finding F10b), not as the property wants it; for a childless target and a same-indent "
+              "payload the index is characterised through the code's own helpers (last sibling / last_family_linenum). Known finding F10d: "
+              "append_to_family on a comment or blank target (which heads no family) can make following lines children of the new line — "
+              "the hypothesis 'the target is a configuration line' of the childless theorem is necessary; appendToFamily_parents says "
+              "which lines are captured. Not covered by the parent theorems: configs (or payloads) with banner or macro starts — there the "
+              "links are delimiter based; only C07's 'tree after commit = fresh parse' applies — and states with uncommitted changes "
+              "(auto_commit off), where no tree exists until the commit. The list-level frame is stated over positions of the new list "
+              "(rank = old position), not as a closed formula old index -> new index.")
 ASSUMPTIONS = ["object handles are used only on a committed state", "auto_indent_width is the syntax default (1, or 2 for nxos)"]
 TRUSTED = ["regex oracle rows", "str.replace modelled for non-empty 'before'"]
 EXHAUSTIVE = {"quick": False, "thorough": False}
